@@ -78,11 +78,11 @@ def dsb(mnem, units, size, samples, rc, api=0, file_number=1):
     return b
 
 
-def dfsr(channels, indirect, up=True, spacing=60, depth_rc=73, data_type=0):
+def dfsr(channels, indirect, up=True, spacing=60, depth_rc=73, data_type=0, spacing_units=b'.1IN', depth_units=b'.1IN'):
     """channels: list of (mnem, units, size, samples, rep code)."""
     ebs = [entry_block(1, 66, bytes([data_type])), entry_block(2, 66, b'\x00'), entry_block(4, 66, bytes([1 if up else 255])),
-           entry_block(8, 73, i32(spacing)), entry_block(9, 65, b'.1IN'), entry_block(12, 68, encode68(-999.25)),
-           entry_block(13, 66, bytes([1 if indirect else 0])), entry_block(14, 65, b'.1IN'), entry_block(15, 66, bytes([depth_rc]))]
+           entry_block(8, 73, i32(spacing)), entry_block(9, 65, spacing_units), entry_block(12, 68, encode68(-999.25)),
+           entry_block(13, 66, bytes([1 if indirect else 0])), entry_block(14, 65, depth_units), entry_block(15, 66, bytes([depth_rc]))]
     body = b''.join(ebs)
     # terminator: size chosen so that the entry block set has even length (LIS-79 4.1.6)
     if (len(body) + 3) % 2:
